@@ -86,6 +86,22 @@ func checkPeriod(y, m, d int) (fails []fail) {
 			add("duration-wrong:"+kind, "duration", fmt.Sprintf("duration %v want %v", got, wantDur))
 		}
 	}
+	// the same through the public constructor from plain Date literals (no range-end flags set by
+	// the caller) and from a parsed string: the range's own end date must be the end bound
+	for name, r := range map[string]gedcom.DateRange{
+		"literals":      gedcom.NewDateRange(gedcom.Date{Year: y, Month: time.Month(m), Day: d}, gedcom.Date{Year: y, Month: time.Month(m), Day: d}),
+		"flags-swapped": gedcom.NewDateRange(mk(y, m, d, true), mk(y, m, d, false)),
+	} {
+		if got := r.Duration().Duration; got != wantDur && !(st.IsZero() && got == 0) {
+			add("duration-wrong:"+kind+":range-from-"+name, "duration-"+name, fmt.Sprintf("NewDateRange from %s: duration %v want %v", name, got, wantDur))
+		}
+		if e := r.EndDate().Time(); (e.Unix() != wantEndSec || e.Nanosecond() != 999999999) && !(st.IsZero() && e.Equal(st)) {
+			add("end-bound-wrong:"+kind+":range-from-"+name, "end-"+name, fmt.Sprintf("NewDateRange from %s: end bound %s, want last ns of day number %d", name, e.UTC(), first+n-1))
+		}
+		if b := r.StartDate().Time(); b.Unix() != wantStart || b.Nanosecond() != 0 {
+			add("start-bound-wrong:"+kind+":range-from-"+name, "start-"+name, fmt.Sprintf("NewDateRange from %s: start bound %s, want unix %d", name, b.UTC(), wantStart))
+		}
+	}
 	// Years lies inside the period it describes
 	yrs := mk(y, m, d, false).Years()
 	if !(yrs >= float64(y) && yrs < float64(y+1)) {
